@@ -1053,6 +1053,21 @@ class UniformTime(np.ndarray, TimeInterface):
         out *= -1
         return out
 
+    # Likewise for scaling: axis * k, k * axis and -axis are again uniform
+    # axes, made in place on a copy so that t0, sampling_interval,
+    # sampling_rate and duration are scaled with the samples (a negative
+    # factor reverses the direction of the axis). Whatever `*=` refuses (0,
+    # a factor that would not leave whole base units) is refused here too.
+    def __mul__(self, val):
+        out = self.copy()
+        out *= val
+        return out
+
+    __rmul__ = __mul__
+
+    def __neg__(self):
+        return self * -1
+
     __lt__ = TimeArray.__lt__
     __gt__ = TimeArray.__gt__
     __le__ = TimeArray.__le__
